@@ -323,13 +323,19 @@ _WITEM = re.compile(
 
 
 def classify(p, r, k: Consts) -> dict:
-    """Wire-level class (see _classify_wire), downgraded when the server logged an exception for the request:
-    Gopher has no status line, so e.g. a Spartan-formatted error sent to a Gopher client reads as a document."""
+    """Wire-level class (see _classify_wire).  Plain Gopher has no status line (a Spartan-formatted error sent to
+    a Gopher client reads as a document), so there a response only counts as success if the server log shows that
+    a handler accepted the request; a response during which an exception escaped the connection handler never does."""
     res = _classify_wire(p, r, k)
     exc = r.exc_classes()
     res["exc"] = exc
-    if res["cls"] == "ok" and (exc or r.escaped is not None):
-        res["cls"] = "notfound" if exc and all(x == "FileNotFound" for x in exc) and r.escaped is None else "error"
+    # the server logs "<addr> [<Protocol>/<Handler>]: <selector>" once a handler accepted the request
+    handled = any(re.search(r"\[\w+/\w+\]: ", ln) and " EXCEPTION " not in ln for ln in r.log)
+    if res["cls"] == "ok":
+        if r.escaped is not None:
+            res["cls"] = "error"
+        elif p in ("G", "SG") and not handled:          # no status line in plain Gopher: the log decides
+            res["cls"] = "notfound" if "FileNotFound" in exc else "error"
     m = re.search(r"\[(\w+)/(\w+)\]", " ".join(r.log))
     res["by"] = [m.group(1), m.group(2)] if m else ["", ""]
     return res
